@@ -37,12 +37,14 @@ type sensorStep struct {
 }
 
 type sensorIn struct {
-	Kind     string  `json:"kind"` // hwmon | file | cmd
-	N        int     `json:"n"`
-	InitMode string  `json:"initMode"` // read | set
+	Kind     string       `json:"kind"` // hwmon | file | cmd
+	N        int          `json:"n"`
+	InitMode string       `json:"initMode"` // read | set
 	InitStep sensorStep   `json:"initStep"`
-	InitSet  string  `json:"initSet"` // hex float
+	InitSet  string       `json:"initSet"` // hex float
 	Steps    []sensorStep `json:"steps"`
+	Monitor  bool         `json:"monitor,omitempty"` // run through the real monitor loop (drv_sensor_mon.go); steps = planned reads
+	PollUs   int          `json:"pollUs,omitempty"`  // monitor polling rate in microseconds
 }
 
 type sensorObs struct {
@@ -249,7 +251,9 @@ func sensorIntText(rng *Rng, z int64) string {
 	return s + "\n"
 }
 
-func sensorOkInt(rng *Rng, z int64) sensorStep { return sensorStep{Text: sensorIntText(rng, z), Cls: "int", Z: z} }
+func sensorOkInt(rng *Rng, z int64) sensorStep {
+	return sensorStep{Text: sensorIntText(rng, z), Cls: "int", Z: z}
+}
 
 // a float as a command prints it; ParseFloat must return exactly f
 func sensorOkFloat(rng *Rng, f float64) sensorStep {
@@ -503,7 +507,13 @@ func sensorUniq(xs []string) []string {
 func init() {
 	drivers["sensor"] = func(ctx *Ctx) {
 		emit := func(in sensorIn, tags ...string) {
-			obs, coq := sensorRun(ctx, in)
+			var obs sensorObs
+			var coq string
+			if in.Monitor {
+				obs, coq = sensorMonRun(ctx, in)
+			} else {
+				obs, coq = sensorRun(ctx, in)
+			}
 			distinct := map[string]bool{obs.Init: true}
 			for _, a := range obs.Avgs {
 				distinct[a] = true
@@ -525,6 +535,12 @@ func init() {
 		thorough := !ctx.Quick()
 		for i := 0; i < n; i++ {
 			in, tags := sensorGenCase(rng, thorough, false)
+			emit(in, tags...)
+		}
+		// the real monitor loop (ticker) over a hook-served file: failure streaks of 1..3 windows
+		mr := NewRng(ctx.Seed, "sensor-monitor")
+		for i := 0; i < ctx.Param("monitor", 30); i++ {
+			in, tags := sensorMonGen(mr)
 			emit(in, tags...)
 		}
 		hr := NewRng(ctx.Seed, "sensor-hostile")
